@@ -46,7 +46,7 @@ TypesExec == [
                  le |-> Rs(Li(Nm("E"))), ls |-> Rs(Li(Nn(Nm("String")))), fl |-> Rs(Nm("Float")), lfl |-> Rs(Li(Nn(Nm("Float")))), idf |-> Rs(Nm("ID")), bo |-> Rs(Nm("Boolean")),
                  f |-> RsA(Nm("String"), FArgs), g |-> RsA(Nm("String"), GArgs), h |-> RsA(Nm("String"), HArgs),
                  fz |-> RsA(Nm("String"), ZArgs), gd |-> RsA(Nm("String"), GdArgs),
-                 cs |-> Rs(Nm("Cs")), csn |-> Rs(Nn(Nm("Cs"))), lcs |-> Rs(Li(Nn(Nm("Cs")))) ]],
+                 cs |-> RsA(Nm("Cs"), << Ag("a", Nm("Cs")) >>), csn |-> Rs(Nn(Nm("Cs"))), lcs |-> Rs(Li(Nn(Nm("Cs")))) ]],
   T |-> [kind |-> "OBJECT", possible |-> {"T"}, possibleSeq |-> <<"T">>, values |-> <<>>, way |-> "key", fields |-> TFields],
   P |-> [kind |-> "INTERFACE", possible |-> {"A", "B"}, possibleSeq |-> <<"A", "B">>, values |-> <<>>, way |-> "", fields |-> PFields],
   A |-> [kind |-> "OBJECT", possible |-> {"A"}, possibleSeq |-> <<"A">>, values |-> <<>>, way |-> "key",
